@@ -333,7 +333,9 @@ func (l *Lexer) consumeEscape() bool {
 				break
 			}
 		}
-		l.consumeWhitespace()
+		if !l.consumeNewline() { // \r\n is a single whitespace
+			l.consumeWhitespace()
+		}
 		return true
 	} else {
 		c := l.r.Peek(0)
